@@ -32,7 +32,7 @@ RULE = (
 STATE_MEASURE = "(method, order vs length class, operation kinds before the judged interpolation, query position class)"
 PROBES = [
     "node_exact", "between_nodes", "first_interval", "last_interval", "outside_refused", "interp_after_inplace_frame_change", "interp_after_inplace_form_change",
-    "interp_after_setting_change", "interp_after_pickle", "interp_after_copy", "interp_next_to_suspended_iteration", "polynomial_reproduced", "too_short_table_refused", "node_exact_to_rounding_linear",
+    "interp_after_setting_change", "interp_after_pickle", "interp_after_copy", "interp_next_to_suspended_iteration", "polynomial_reproduced", "too_short_table_refused", "node_exact_to_rounding_linear", "converted_copy_taken",
     "cache_dropped",
 ]
 REAL_VS_STUB = "real: beyond.orbits.ephem.Ephem, beyond.utils.interp (Interp / DatedInterp), StateVector frame / form conversions, pickle; stub: none; model: a fresh Ephem rebuilt from the current points on a pristine node, the stored points themselves (node exactness), the generating polynomial"
@@ -67,10 +67,11 @@ def gen_plan(rng, tier, i):
         "degree": rng.randint(0, max(0, (order if method == "lagrange" else 2) - 1)),
         # the points may be handed to the constructor in any order (two arcs concatenated latest first, a grid plus extra dates...)
         "given_order": rng.choice(["sorted", "sorted", "reversed", "shuffled", "arcs_swapped"]),
+        "sampling": rng.choice(["regular", "regular", "two_rates", "drift"]),
     }
     ops = []
     for _ in range(rng.randint(4, 12) if tier != "thorough" else rng.randint(8, 24)):
-        k = rng.choice(["interp"] * 7 + ["set_frame", "set_frame", "set_form", "set_order", "set_method", "iter_start", "iter_next", "copy", "pickle", "drop_cache"])
+        k = rng.choice(["interp"] * 7 + ["set_frame", "set_frame", "set_form", "set_order", "set_method", "iter_start", "iter_next", "copy", "copy_convert", "pickle", "drop_cache"])
         op = {"op": k}
         if k == "interp":
             op.update(where=rng.choice(["node", "node", "between", "between", "first", "last", "before", "after"]), k=rng.randrange(64), frac=rng.choice([0.5, 0.01, 0.99, rng.random()]), out_us=rng.choice([1, 1000, 10**6, 3600 * 10**6]))
@@ -82,6 +83,8 @@ def gen_plan(rng, tier, i):
             op["order"] = rng.choice([2, 4, 6, 8, 10, 12])
         elif k == "set_method":
             op["method"] = rng.choice(["linear", "lagrange"])
+        elif k == "copy_convert":
+            op.update(frame=rng.choice([None] + INERTIAL + ROTATING), form=rng.choice([None, "spherical", "cartesian"]))
         elif k == "iter_start":
             op.update(step_frac=rng.choice([0.5, 0.37, 2.0]), n=rng.randint(1, 3))
         elif k == "iter_next":
@@ -93,8 +96,13 @@ def gen_plan(rng, tier, i):
 def table_dates_s(spec):
     rs = np.random.RandomState(spec["jseed"])
     t = [0.0]
-    for _ in range(spec["npts"] - 1):
-        t.append(t[-1] + spec["step_s"] * (1.0 + spec["jitter"] * float(rs.uniform(-1, 1))))
+    for q in range(spec["npts"] - 1):
+        rate = 1.0
+        if spec.get("sampling") == "two_rates" and q >= (spec["npts"] - 1) // 2:
+            rate = 3.0  # two successive date ranges with different steps (the example of the Ephem.iter docstring)
+        elif spec.get("sampling") == "drift":
+            rate = 1.0 + q / max(spec["npts"] - 2, 1)  # the step drifts from 1x to 2x along the table
+        t.append(t[-1] + spec["step_s"] * rate * (1.0 + spec["jitter"] * float(rs.uniform(-1, 1))))
     return [round(x, 3) for x in t]
 
 
@@ -297,7 +305,7 @@ class World:
             slope = float(np.max(np.sum(np.abs(poly_coeffs(spec)) * np.arange(spec["degree"] + 1), axis=1) / sc)) / span
             ctx.observe("poly_rel", perr)
             # ... and the rounding of the abscissa differences is amplified by the high-order basis on near-equispaced nodes
-            if perr > TOLERANCES["poly_rel"] * (1.0 + 2.0 ** (order / 2.0)) + 2e-6 * slope:
+            if perr > TOLERANCES["poly_rel"] * (1.0 + 2.0 ** order) + 2e-6 * slope:
                 ctx.violate("polynomial-reproduction", dict(fp, kind="polynomial_not_reproduced", degree=spec["degree"]), f"{where}: a degree-{spec['degree']} polynomial table interpolated with {method} order {order} is off by {perr:.3e} (relative) at {w}")
             else:
                 ctx.probe("polynomial_reproduced")
@@ -392,6 +400,24 @@ class World:
             self.m_method, self.m_order = str(self.eph.method).lower(), int(self.eph.order)
         self.it = None
         self.since.add("copy")
+
+    def op_copy_convert(self, op, where):
+        """ephem.copy(frame=..., form=...): a converted copy; the source ephemeris is left as it is."""
+        ctx = self.ctx
+        with self.node:
+            before = describe_points(self.eph)
+            kw = {k_: op[k_] for k_ in ("frame", "form") if op.get(k_)}
+            try:
+                c = self.eph.copy(**kw)
+            except Exception:  # noqa
+                return
+            after = describe_points(self.eph)
+            shared = any(a is b for a in c for b in self.eph)
+        ctx.checks += 1
+        ctx.probe("converted_copy_taken")
+        self.since.add("copy")
+        if before != after or shared:
+            ctx.violate("history-independence", {"kind": "source_changed_by_converted_copy", "size": "large"}, f"{where}: ephem.copy({kw}) {'shares point objects with' if shared else 'changed the points of'} the ephemeris it was taken from")
 
     def op_pickle(self, op, where):
         with self.node:
